@@ -72,11 +72,9 @@ bool HistoryBuffer::setHistorySize(const unsigned int window)
     else if (window >= max_window_) tmp = max_window_;
     else                            tmp = window;
 
-    if (tmp < window_ && tmp < history_buffer_.size())
-    {
-        for (unsigned int i = 0; i < (window_ - tmp); ++i)
-            history_buffer_.pop_back();
-    }
+    /* Keep the most recent tmp elements. */
+    while (history_buffer_.size() > tmp)
+        history_buffer_.pop_back();
 
     window_ = tmp;
 
